@@ -17,7 +17,7 @@ RULE = ('Random well-nested write histories: 1-3 interchanges x 0-3 groups x 0-3
 ASSUMPTIONS = ['a sibling header while a loop of the same level is still open is outside the property\'s domain and not generated',
                'data contains none of the writer\'s delimiters; about a tenth of the histories re-use a control number within its scope: counts and trailers must still be true, only the duplicate-id finding itself is then ignored on re-reading',
                'check_837_lx (LX renumbering) left at its default']
-REQUIRED_COUNTERS = ['runs:isa-field-holding-the-source-component-separator', 'runs:writer-used-again-after-Close', 'runs:control-number-with-foreign-delimiter', 'trailers:wrong:earlier-sibling-id', 'histories', 'runs', 'runs:cut', 'runs:control-number-reused', 'trailers:omitted', 'trailers:wrong', 'reader-rechecks', 'isa:00501', 'isa:00401']
+REQUIRED_COUNTERS = ['runs:5010-source-with-letter-digit-or-blank-in-ISA11', 'runs:isa-field-holding-the-source-component-separator', 'runs:writer-used-again-after-Close', 'runs:control-number-with-foreign-delimiter', 'trailers:wrong:earlier-sibling-id', 'histories', 'runs', 'runs:cut', 'runs:control-number-reused', 'trailers:omitted', 'trailers:wrong', 'reader-rechecks', 'isa:00501', 'isa:00401']
 MIN_CASES = {'quick': 4000, 'thorough': 1500000}
 
 TERMS = [('~', '*', ':', '^', '\n'), ('!', '|', '>', '^', ''), ('\x1c', '\x1d', '<', '\x1f', '\r\n'), ('\n', '*', ':', '^', ''), ('~', '*', '\\', '^', '\n'),
@@ -154,7 +154,11 @@ def play(ctx, ev, cut, terms, meta):
                     # the source's component separator inside an ISA field: ISA fields are never composites, and for this writer ':' is data
                     snd = ['SEND:ER', 'ZZ:000:1', 'ABCDEFGHIJKLMN:'][len(want) % 3]
                     info['isa_field_with_source_separator'] = 1
-                els = RE.isa_elements(cid, arg, sub=':', sender=snd)
+                # what the source ISA holds in ISA11 is of no concern to the writer: a 5010 ISA gets the writer's own repetition separator
+                src11 = ['^', 'U', '9', '!', ' '][zlib.crc32(repr((meta, cid, 'r')).encode()) % 5] if arg == '00501' else None
+                if src11 in ('U', '9', ' '):
+                    info['src_isa11_alnum'] = 1
+                els = RE.isa_elements(cid, arg, sub=':', sender=snd, rep=src11)
                 segstr = 'ISA*' + '*'.join(els)
                 w.Write(S.Segment(segstr, '~', '*', ':'))
                 ctx.count('isa:' + arg)
@@ -268,6 +272,8 @@ def one(ctx, ev, cut, terms, meta):
         return None
     ctx.count('trailers:omitted', info['omitted'])
     ctx.count('trailers:wrong', info['wrong'])
+    if info.get('src_isa11_alnum'):
+        ctx.count('runs:5010-source-with-letter-digit-or-blank-in-ISA11')
     if info.get('isa_field_with_source_separator'):
         ctx.count('runs:isa-field-holding-the-source-component-separator')
     if info.get('closed_midway'):
